@@ -46,10 +46,23 @@ func runSkel(cfg *runCfg) {
 		{10, "pkg/mod/executor.go", "DefExecutor", "workerDo"},
 		{11, "pkg/mod/parser.go", "DefParser", "Init"},
 		{12, "pkg/mod/executor.go", "DefExecutor", "Init"},
+		{13, "pkg/entity/dag.go", "ShareData", "Set"},
+		{14, "pkg/entity/dag.go", "ShareData", "Get"},
+	}
+	// -x shutdown: the functions of the Shutdown model (C20); -x sharedata: ShareData.Set / Get (C18)
+	lo, hi := 1, 14
+	switch cfg.extra {
+	case "shutdown":
+		hi = 12
+	case "sharedata":
+		lo = 13
 	}
 	fset := token.NewFileSet()
 	files := map[string]*ast.File{}
 	for _, f := range fns {
+		if f.id < lo || f.id > hi {
+			continue
+		}
 		af, ok := files[f.file]
 		if !ok {
 			var err error
@@ -70,11 +83,11 @@ func runSkel(cfg *runCfg) {
 }
 
 var skelObjects = map[string]int{
-	"lock": 1, "closeCh": 2, "workerQueue": 3, "queue": 3, "workerWg": 4, "senderWg": 5, "initQueue": 6, "initWg": 7, "cancelMap": 8,
+	"lock": 1, "closeCh": 2, "workerQueue": 3, "queue": 3, "workerWg": 4, "senderWg": 5, "initQueue": 6, "initWg": 7, "cancelMap": 8, "mutex": 9,
 }
 var skelCalls = map[string]int{
 	"sendToChannel": 20, "EntryTaskIns": 21, "initWorkerTask": 22, "workerDo": 23, "executeNext": 24, "Push": 25, "DoPreCheck": 26,
-	"PatchTaskIns": 27, "goWorker": 28, "startWatcher": 29, "watchInitQueue": 30, "subWorkerQueue": 31, "initialRunningDagIns": 32,
+	"PatchTaskIns": 27, "goWorker": 28, "startWatcher": 29, "watchInitQueue": 30, "subWorkerQueue": 31, "initialRunningDagIns": 32, "Save": 40,
 }
 var skelMethods = map[string]int{"Lock": 1, "Unlock": 2, "RLock": 3, "RUnlock": 4, "Wait": 9, "Add": 10, "Done": 11}
 
